@@ -123,7 +123,7 @@ def _(u):
 def _(u):
     B, N, T = u.dims("B N T")
     u.requires(T >= 2)
-    td = u.td(B, locs=((B, N, 2), "f"))
+    td = tsp_state(u, B, N)      # the whole state with arbitrary bookkeeping fields: the reward depends on the coordinates and the actions only
     act = u.tensor("actions", (B, T), "i")
     u.requires(u.forall((B, T), lambda b, t: AND(act.at(b, t) >= 0, act.at(b, t) < N)))
     env = u.obj(FT, "TSPEnv", check_solution=False)
@@ -144,7 +144,7 @@ def _(u):
 @unit("atsp.reward", file=FA, func="ATSPEnv._get_reward", props=("C03",))
 def _(u):
     B, N, T = u.dims("B N T")
-    td = u.td(B, cost_matrix=((B, N, N), "f"))
+    td = tsp_state(u, B, N, atsp=True)      # whole state, arbitrary bookkeeping fields
     act = u.tensor("actions", (B, T), "i")
     u.requires(u.forall((B, T), lambda b, t: AND(act.at(b, t) >= 0, act.at(b, t) < N)))
     env = u.obj(FA, "ATSPEnv", check_solution=False)
